@@ -56,8 +56,22 @@ C01_L2 == TagAll(C01_L3, C01_DTags) \cup
 C01_L1 == TagAll({SD("dict", NoVal, <<<<C01_KA, x>>>>) : x \in C01_L2}, C01_DTags) \cup {C01_Md(SD("dict", NoVal, <<<<C01_KA, x>>>>)) : x \in C01_L2}
 C01_DeepDocs == TagAll({SD("dict", NoVal, <<<<C01_KA, x>>>>) : x \in C01_L1}, {"none", "force", "unsafe"})
 
-C01_DocsQ == SetToSeq(C01_Flat \cup {d \in C01_DeepDocs : d.form = "none"})
-C01_Docs  == SetToSeq(C01_FlatDocs \cup C01_DeepDocs)
+\* several NULL entries in one container (the renderer writes untagged nulls as empty entries `a:` / `-` in half of the
+\* documents: the loader's node memo then sees the very same Python None more than once), the container or the document tagged
+C01_N == SD("scalar", Atom("n", ""), <<>>)
+C01_NullKids == {SD("dict", NoVal, <<<<C01_KA, C01_N>>, <<C01_KB, C01_N>>>>),
+                 SD("dict", NoVal, <<<<C01_KA, C01_N>>, <<C01_KB, SD("scalar", Atom("i", "1"), <<>>)>>, <<C01_KU, C01_N>>>>),
+                 SD("list", NoVal, <<<<IKey(0), C01_N>>, <<IKey(1), C01_N>>>>),
+                 SD("list", NoVal, <<<<IKey(0), C01_N>>, <<IKey(1), SD("scalar", Atom("i", "1"), <<>>)>>, <<IKey(2), C01_N>>>>),
+                 SD("dict", NoVal, <<<<C01_KA, C01_N>>, <<C01_KB, SD("list", NoVal, <<<<IKey(0), C01_N>>, <<IKey(1), C01_N>>>>)>>>>)}
+C01_NullDocs == UNION { {SD("dict", NoVal, <<<<C01_KA, v>>>>), SD("dict", NoVal, <<<<C01_KA, v>>, <<C01_KB, C01_N>>, <<IKey(0), C01_N>>>>)}
+                        : v \in C01_TagAll(C01_NullKids) }
+                \cup C01_TagAll(C01_NullKids \ {x \in C01_NullKids : x.k = "list"})          \* the document itself tagged
+                \cup {SD("dict", NoVal, <<<<C01_KA, WithTag(SD("dict", NoVal, <<<<C01_KB, v>>, <<C01_KA, C01_N>>>>), t)>>>>)
+                        : v \in C01_NullKids, t \in {"force", "merge"}}                             \* two levels below a tag
+
+C01_DocsQ == SetToSeq(C01_Flat \cup {d \in C01_DeepDocs : d.form = "none"} \cup C01_NullDocs)
+C01_Docs  == SetToSeq(C01_FlatDocs \cup C01_DeepDocs \cup C01_NullDocs)
 
 \* two keys at the top level (all pairs of key kinds) over a smaller value set
 C01_V2 == TagAll(Leaves({Atom("i", "1"), Atom("n", "")}) \cup {SD("list", NoVal, <<<<IKey(0), SD("scalar", Atom("i", "1"), <<>>)>>>>)},
